@@ -367,6 +367,48 @@ func c14Ctor(l *core.Ledger, r *rt, c *cfgCtor) {
 				}
 			})
 		}
+		// G3b: where addresses are requested, an input may only be dropped as a
+		// duplicate after the pool lookup (and its address comparison) ran for it:
+		// a membership test that comes first silently folds a different address
+		// with a colliding id into the node already listed
+		if c.takesAdr && okSeen {
+			var nodeLookups []ssa.Instruction
+			var ctorCalls []ssa.Instruction
+			sx.AllInstrs(fn, func(_ sx.Node, in ssa.Instruction) {
+				if cc, ok := in.(*ssa.Call); ok {
+					if cs := cc.Call.StaticCallee(); cs != nil && cs.Name() == "Node" && cs.Signature.Recv() != nil && isNamed(cs.Signature.Recv().Type(), core.RootModule, "RawManager") {
+						nodeLookups = append(nodeLookups, cc)
+					}
+					if calleeIs(&cc.Call, core.RootModule+".NewRawNode", core.RootModule+".NewRawNodeWithID") {
+						ctorCalls = append(ctorCalls, cc)
+					}
+				}
+			})
+			okOrder := len(nodeLookups) > 0
+			sx.AllInstrs(fn, func(n sx.Node, in ssa.Instruction) {
+				ifi, ok := in.(*ssa.If)
+				if !ok {
+					return
+				}
+				isSeenTest := false
+				for _, e := range notSeen {
+					t, f := sx.CondEdges(ifi)
+					if e == t || e == f {
+						isSeenTest = true
+					}
+				}
+				if !isSeenTest {
+					return
+				}
+				for _, cc := range ctorCalls {
+					if _, must := sx.MustPassThrough(sx.NodeOf(cc), isInstrIn(nodeLookups), func(x sx.Node) bool { return x == n }); !must {
+						okOrder = false
+					}
+				}
+			})
+			l.Check(okOrder, "C14-G3", k+"/dedupe-after-lookup", a.Pos(), "duplicates are dropped only after the pool lookup and address comparison",
+				"an input address can be skipped as a duplicate (same id already seen in this call) before the pool lookup and its address comparison ran: two distinct addresses with colliding ids given in one list are silently folded into one node")
+		}
 		l.Check(okSeen && okMark, "C14-G2", k, a.Pos(), "appended only if its id was not seen before in this call", "a node is appended without a membership test of its id in a set local to the call: the same node can be listed twice (size and NodeIDs disagree with the set of nodes; a quorum call on it can never collect all replies)")
 
 		// G9 + G3
